@@ -151,11 +151,12 @@ theorem scanStep_spec (cfg : Cfg) (hd : cfg.d ≠ .go) (fuel : Nat) (hF : src.si
                         unfold peek at hpeek
                         rw [next_ch]
                         have hlt2 : (next src st).rdOff < src.size := by
-                          by_contra hge
-                          unfold byteAt at hpeek
-                          simp [hge] at hpeek
-                        simp only [hlt2, if_true, hpeek]
-                        decide
+                          by_cases hge : (next src st).rdOff < src.size
+                          · exact hge
+                          · exfalso
+                            unfold byteAt at hpeek
+                            simp [hge] at hpeek
+                        simp [hlt2, hpeek]
                       obtain ⟨s3, e3, _⟩ := slice_snoc (next_inv a1.inv) (by omega : st.off ≤ (next src (next src st)).off) hpk (by omega)
                       apply fin _ _ _ _ _ (a1.thenNext.thenNext) ⟨rfl, rfl, rfl, rfl, rfl⟩ (by omega)
                       apply TokOK.op _ (by simp only; omega) (Or.inl rfl)
@@ -174,7 +175,7 @@ theorem scanStep_spec (cfg : Cfg) (hd : cfg.d ≠ .go) (fuel : Nat) (hF : src.si
                       intro hsc
                       obtain ⟨s1, e1, _⟩ := slice_snoc hi (Nat.le_refl _) hsc (by omega)
                       rw [slice_self, List.nil_append] at s1
-                      apply fin _ _ _ _ _ a1 ⟨rfl, rfl, rfl, rfl, rfl⟩ (by omega)
+                      apply fin (next src st) _ _ _ _ a1 ⟨rfl, rfl, rfl, rfl, rfl⟩ (by omega)
                       apply TokOK.op _ (by simp only; omega) (Or.inr ⟨rfl, rfl⟩)
                       simp only
                       rw [s1, spelling_semicolon cfg.d hd]
@@ -197,7 +198,7 @@ theorem scanStep_spec (cfg : Cfg) (hd : cfg.d ≠ .go) (fuel : Nat) (hF : src.si
                             obtain ⟨s1, e1, _⟩ := slice_snoc hi (Nat.le_refl _) rfl hlt
                             rw [slice_self, List.nil_append] at s1
                             have hw := walk_adv (src := src) t (next src st) a1.inv
-                            apply fin _ _ _ _ _ (a1.trans hw) ⟨rfl, rfl, rfl, rfl, rfl⟩ (by have := hw.off_le; omega)
+                            apply fin (walk src t (next src st)).1 _ _ _ _ (a1.trans hw) ⟨rfl, rfl, rfl, rfl, rfl⟩ (by have := hw.off_le; omega)
                             apply TokOK.op _ (by simp only; have := hw.off_le; omega) (Or.inl rfl)
                             simp only
                             exact hsp (next src st) st.off a1.inv (by omega) s1
